@@ -108,7 +108,8 @@ def tree_of(e, wait=False):
     if wait:
         t = Tree(first=0)
         w = t.new(None, "wait", "sync_wait")
-        cpp = build(e, t, w)
+        o = t.new(w, "op", "observe")        # k2as::observe: the harness's observing adaptor
+        cpp = build(e, t, o)
     else:
         t = Tree()
         cpp = build(e, t, None)
@@ -152,7 +153,7 @@ def parse_log(trace):
     body, _, tail = trace.partition(" # ")
     plain, obs = [], []
     for x in body.split(";"):
-        m = re.match(r"as(?:@(\d+))? (\w+)(?: (\d+|value|error|done))?(?: chain=(\S+))? roots=(.*?)(?: trace=(\S+))?$", x)
+        m = re.match(r"as(?:@(\d+))? (\w+)(?: (\d+|value|error|done|before|after))?(?: chain=(\S+))? roots=(.*?)(?: trace=(\S+))?$", x)
         if m:
             o = Obs()
             o.thread = int(m.group(1) or 0); o.what = m.group(2); o.id = m.group(3)
@@ -273,6 +274,10 @@ def reconstruct(t, obs, wait=False, nthreads=1):
         if o.what == "complete":
             pending[th] = (t.leaf_op[int(o.id)], len(stack))
         body_of(th).append(["O", o.idx, None, []])
+        if wait and o.what == "root":
+            # the observing adaptor now forwards to sync_wait's receiver through its own wrapper: a completion
+            # bracket of op 1 that contains no observation point (known from the adaptor's code: it always forwards)
+            body_of(th).append(["C", 1, None, []])
         expected.append((o.idx, th, o))
     def show(node):
         k, a, b, ch = node
@@ -328,6 +333,9 @@ def check_run(t, trace, wait=False, nthreads=1):
     for _, x in end:
         if "ROOT-NOT-RESTORED" in x or "FRAME-STILL-ACTIVE" in x:
             return "monitor: " + x, info
+    for x in plain:
+        if isinstance(x, str) and "ROOT-NOT-RESTORED" in x:
+            return "monitor: " + x, info
     m = re.search(r"stalecache=(\d+)", end[-1][1])
     info["stalecache"] = int(m.group(1)) if m else -1
     # while idle (between script events) no root is installed on the driving thread
@@ -372,3 +380,93 @@ def compare_with_model(info, mout, wait=False):
     info["model_acts"] = int(m.group(5))
     info["model_stalecache"] = int(m.group(8))
     return ""
+
+
+# ------------------------------------------------------------------------------------------ async_trace (visitation builds)
+def predicted_trace(t, op):
+    """async_trace(receiver of leaf `op`) with continuation visitation: one entry per receiver from the leaf's
+    to the root receiver: per operation on the path the wrapper receiver of inject_async_stack.hpp plus - for
+    every non-leaf operation except unstoppable (which hands its receiver straight to with_query_value) - the
+    adaptor's own receiver; plus the root receiver.  Returns (entries, max depth)."""
+    path = t.anc(op)
+    n = 1
+    for i, x in enumerate(path):
+        n += 1
+        if i > 0 and t.label[x] != "unstoppable":
+            n += 1
+    return n, n - 1
+
+
+def check_traces(t, obs):
+    """-> '' or a verdict; only for runs whose final receiver is the harness's root receiver"""
+    for o in obs:
+        if o.what in ("start", "istart") and o.extra:
+            op = t.leaf_op[int(o.id)] if o.what == "start" else t.inl_op[int(o.id)]
+            n, d = predicted_trace(t, op)
+            want = "%d/%d/root" % (n, d)
+            if o.extra != want:
+                culprit = [t.label[x] for x in t.anc(op) if t.label[x] in ("stop_when",)]
+                return "trace%s: async_trace from leaf %s gives %s (entries/depth/reaches root receiver), expected %s for the path %s" % (
+                    "/" + culprit[0] if culprit else "", o.id, o.extra, want, [t.label[x] for x in t.anc(op)])
+    return ""
+
+
+# ------------------------------------------------------------------------------------------ task<> case (monitors only)
+TASK_SUFFIX = 7   # frames between the observing adaptor's operation and the end of the chain in run_case_task:
+                  # 2 operations of task's await_transform (with_scheduler_affinity around the awaited sender),
+                  # the task's frame (awaiter::frame_), connect_awaitable's sender_task promise frame, the two
+                  # wrapper operations of connect(task, receiver), sync_wait's initial frame
+
+
+def check_task_run(t, trace):
+    """coroutine path (connect_awaitable / await_transform / task): direct monitors on the snapshots"""
+    plain, obs, tail = parse_log(trace)
+    info = {"observations": len(obs)}
+    for x in plain:
+        txt = x[1] if isinstance(x, tuple) else x
+        if "ROOT-NOT-RESTORED" in txt or "FRAME-STILL-ACTIVE" in txt:
+            return "monitor: " + txt, info
+    if not any(isinstance(x, tuple) and x[1].startswith("as end") and x[1].endswith("ok") for x in plain):
+        return "monitor: no clean quiescence record on thread 0", info
+    if not any(isinstance(x, str) and x.startswith("as@1 end ok") for x in plain):
+        return "monitor: no clean quiescence record on thread 1", info
+    before = [o for o in obs if o.what == "coro" and o.id == "before"]
+    if len(before) != 1 or not before[0].stack or before[0].stack[-1][0] != "C":
+        return "shape: coroutine body did not start under sync_wait's initial root", info
+    init_frame = before[0].stack[-1][2][0]
+    coro_chain = before[0].stack[0][2]
+    coro_root = before[0].stack[0][1]
+    if coro_chain[-1] != init_frame:
+        return "shape: the coroutine's frame chain %s does not end at sync_wait's frame %s" % (coro_chain, init_frame), info
+    suffix = None
+    for o in obs:
+        if o.what in ("start", "istart", "complete"):
+            op = t.leaf_op[int(o.id)] if o.what != "istart" else t.inl_op[int(o.id)]
+            path = [x for x in t.anc(op) if t.kind[x] != "wait"]
+            ch = o.chain or []
+            if len(set(ch)) != len(ch):
+                return "chain-cycle: %s" % ch, info
+            if not ch or ch[-1] != init_frame:
+                return "chain: leaf %s: chain %s does not reach sync_wait's frame %s" % (o.id, ch, init_frame), info
+            if len(ch) != len(path) + TASK_SUFFIX:
+                return "chain-length: leaf %s: %d frames, expected %d (+%d)" % (o.id, len(ch), len(path), TASK_SUFFIX), info
+            sfx = ch[len(path):]
+            if suffix is not None and sfx != suffix:
+                return "chain: the frames above the awaited expression differ between leaves: %s vs %s" % (sfx, suffix), info
+            suffix = sfx
+            if sfx[-len(coro_chain):] != coro_chain:
+                return "chain: leaf %s: chain does not pass through the coroutine's frames %s" % (o.id, coro_chain), info
+        if o.what == "start" and o.thread == 0:
+            # the awaiting coroutine is suspended: its root has no active frame (await_suspend deactivated it)
+            rs = [x for x in o.stack if x[1] == coro_root]
+            if not rs or rs[0][0] != "E":
+                return "shape: the suspended coroutine's root still has an active frame at leaf start: %r" % (rs,), info
+        if o.what == "coro" and o.id == "after":
+            if o.thread != 0 or o.stack[-1][2] is None or o.stack[-1][2][0] != init_frame:
+                return "shape: coroutine resumed outside sync_wait's root", info
+            if o.stack[0][2] != coro_chain:
+                return "shape: coroutine resumed with frame chain %s, had %s" % (o.stack[0][2], coro_chain), info
+        if o.what == "idle" and o.stack:
+            return "monitor: roots installed on the completer thread while idle", info
+    info["suffix"] = suffix
+    return "", info
